@@ -44,11 +44,11 @@ func violateKeyed(c *Ctx, v Violation) {
 	}
 }
 
-// c16Model: the model variant the real code is tied to.  `asis` mirrors /repo today; after the fix:
-// commits have landed (and `Defects.asIs` has been flipped) or for a self-test against a patched copy
-// (VERIF_REPO=… VERIF_C16_MODEL=repaired bin/check C16) it is `repaired`.
+// c16Model: the model variant the real code is tied to.  `asis` = the flags of /repo's current HEAD
+// (`Defects.asIs`); for a self-test against a copy of the pinned snapshot (before the fix: commits) use
+// VERIF_REPO=<copy> VERIF_C16_MODEL=aswas bin/check C16, which ties the code to `Defects.asWas`.
 func c16Model() string {
-	if m := os.Getenv("VERIF_C16_MODEL"); m == "repaired" {
+	if m := os.Getenv("VERIF_C16_MODEL"); m == "aswas" {
 		return m
 	}
 	return "asis"
